@@ -170,6 +170,9 @@ class _BaseLayout(MaildirLayout[_MaildirT], metaclass=ABCMeta):
         for part in parts:
             if not cls._valid_part(part):
                 raise NotSupportedError('Invalid mailbox name.')
+        if len(os.fsencode(delimiter.join(parts))) > 250:
+            # the folder name must fit into one file name
+            raise NotSupportedError('Invalid mailbox name.')
         return parts
 
     @classmethod
